@@ -146,6 +146,10 @@ def fixed_pool_cases(profile):
                           'fn_fail': {'2': 'VErrB'}})
             cases.append({'backend': be, 'api': 'pm', 'n': 5, 'workers': 2, 'buffer': 4, 'delays': [0, 8, 0, 0, 0],
                           'fn_fail': {'1': 'VErrC', '3': 'VErrA'}})
+            if be in ('t', 'mp', 'dill_mp'):
+                # catching enabled, nothing raises, but the VALUES are exception objects of the caught type
+                cases.append({'backend': be, 'api': 'pf', 'n': 5, 'workers': 2, 'buffer': 2, 'delays': [0, 2, 0, 1, 0],
+                              'vk': 'exc', 'catch': ['VErrA', 'VErrC']})
             if be == 't':
                 # an exception whose instances are falsy, through the single-thread hand-over (lazy_dataset's own code;
                 # concurrent.futures.Future itself loses such exceptions - `if self._exception:` - so the pool paths
@@ -212,6 +216,7 @@ def dfs_workloads(profile, tier):
                 for stopk in range(0, n + 1):
                     out.append((dict(wl, stop={'kind': 'close', 'k': stopk}), k))
                 out.append((dict(wl, stop={'kind': 'del', 'k': max(0, n - 1)}), k))
+                out.append((dict(wl, stop={'kind': 'throw', 'k': max(0, n - 1)}), min(k, 1)))
             elif profile == 'fault':
                 for pos in range(n):
                     for where in ('src_fail', 'fn_fail'):
